@@ -25,6 +25,58 @@ def valgrind(scale):
               args=["--threads", "4"])
 
 
+def mp(name, build_id, args, ref_args, rustflags=None, target=None, features=None, expect=None):
+    return {"name": name, "build_id": build_id, "args": args, "ref_args": ref_args, "rustflags": rustflags,
+            "target": target, "features": features, "expect": expect or []}
+
+
+A64 = "aarch64-unknown-linux-gnu"
+
+# C03: the unsafe SIMD kernels under the UB interpreter. x86 engines need
+# their target feature switched on at compile time, otherwise Miri (rightly)
+# reports the call itself as UB - which is exactly what the C14 stage uses.
+MIRI_C03 = {
+    "name": "miri", "kind": "miri-diff", "timeout": 2700,
+    "procs": [
+        mp("x86-avx2-prims", "avx2", ["prims", "avx2", "{seed}", "45"], ["prims", "naive", "{seed}", "45"], "-Ctarget-feature=+avx2"),
+        mp("x86-ssse3-prims", "avx2", ["prims", "ssse3", "{seed}", "45"], ["prims", "naive", "{seed}", "45"], "-Ctarget-feature=+avx2"),
+        mp("x86-avx2-codec", "avx2", ["codec", "avx2", "{seed}", "1"], ["codec", "naive", "{seed}", "1"], "-Ctarget-feature=+avx2"),
+        mp("x86-nosimd-prims", "none", ["prims", "nosimd", "{seed}", "45"], ["prims", "naive", "{seed}", "45"]),
+        mp("a64-neon-prims", "a64", ["prims", "neon", "{seed}", "45"], ["prims", "naive", "{seed}", "45"], target=A64),
+        mp("a64-neon-codec", "a64", ["codec", "neon", "{seed}", "1"], ["codec", "naive", "{seed}", "1"], target=A64),
+    ],
+}
+
+# C14: under Miri runtime detection reports exactly the compile-time features
+# and calling a #[target_feature] function without the feature is reported as
+# UB. With hooks on, the ISA trace shows which engine served the calls.
+def c14_expect(avx2, ssse3, counters):
+    return [
+        {"id": "detected", "regex": r"detected avx2=%s ssse3=%s" % (avx2, ssse3),
+         "what": "runtime detection under Miri did not report the compile-time feature set", "inconclusive": True},
+        {"id": "isa-trace", "regex": counters, "what": "ISA trace shows that the calls were not served by the best reported engine"},
+    ]
+
+
+NZ = r"[1-9]\d*"
+ROW_NZ = r"\[%s, %s, %s, %s\]" % (NZ, NZ, NZ, NZ)
+ROW_Z = r"\[0, 0, 0, 0\]"
+MIRI_C14 = {
+    "name": "miri", "kind": "miri-diff", "timeout": 2700,
+    "procs": [
+        mp("x86-none-default", "none-h", ["default", "{seed}"], ["default", "{seed}"], None, None, "hooks",
+           c14_expect("false", "false", r"isa-counters \[%s, %s, %s\]" % (ROW_Z, ROW_Z, ROW_Z))),
+        mp("x86-ssse3-default", "ssse3-h", ["default", "{seed}"], ["default", "{seed}"], "-Ctarget-feature=+ssse3", None, "hooks",
+           c14_expect("false", "true", r"isa-counters \[%s, %s, %s\]" % (ROW_Z, ROW_NZ, ROW_Z))),
+        mp("x86-avx2-default", "avx2-h", ["default", "{seed}"], ["default", "{seed}"], "-Ctarget-feature=+avx2", None, "hooks",
+           c14_expect("true", "true", r"isa-counters \[%s, %s, %s\]" % (ROW_NZ, ROW_Z, ROW_Z))),
+        mp("a64-default", "a64-h", ["default", "{seed}"], ["default", "{seed}"], None, A64, "hooks",
+           [{"id": "detected", "regex": r"detected neon=true", "what": "neon not detected on aarch64", "inconclusive": True},
+            {"id": "isa-trace", "regex": r"isa-counters \[%s, %s, %s\]" % (ROW_Z, ROW_Z, ROW_NZ),
+             "what": "ISA trace shows that the calls were not served by the Neon engine"}]),
+    ],
+}
+
 PROPERTIES = {
     "C01": {
         "quick": [rs("checked", "checked", 5.0)],
@@ -36,7 +88,7 @@ PROPERTIES = {
     },
     "C03": {
         "quick": [rs("checked", "checked", 4.0)],
-        "thorough": [rs("checked", "checked"), rs("release", "release", 0.5), asan(0.1), valgrind(0.002)],
+        "thorough": [rs("checked", "checked"), rs("release", "release", 0.5), asan(0.1), valgrind(0.002), MIRI_C03],
     },
     "C04": {
         "quick": [rs("checked", "checked", 5.0)],
@@ -80,7 +132,7 @@ PROPERTIES = {
     },
     "C14": {
         "quick": [rs("checked", "checked", 10.0)],
-        "thorough": [rs("checked", "checked"), rs("release", "release")],
+        "thorough": [rs("checked", "checked"), rs("release", "release"), MIRI_C14],
     },
     "C15": {
         "quick": [rs("release", "release", 4.0)],
@@ -88,7 +140,9 @@ PROPERTIES = {
     },
     "C16": {
         "quick": [rs("release", "release", 6.0)],
-        "thorough": [rs("release", "release"), rs("checked", "checked", 0.3)],
+        "thorough": [rs("release", "release"), rs("checked", "checked", 0.3),
+                     {"name": "tsan", "kind": "tsan", "schedules": 100},
+                     {"name": "miri-race", "kind": "miri-race", "seeds": 16, "timeout": 2700}],
     },
     "C17": {
         "quick": [rs("release", "release", 8.0)],
